@@ -12,6 +12,11 @@ jsonschema.validate as called by BaseSpec.validate_schema):
   norm    Model/Norm.v norm_wf_list / norm_wb / norm_action_list  vs  spec.to_dict() of accepted documents
   slice   Model/Slice.v slice  vs  parser._parse_def_from_wb on rendered workbook texts
   key_of  Model/Slice.v key_of / is_content  vs  parser._key_of / _is_content line by line
+  speccache  Model/SpecCache.v exec_ops (configured by Gen/SpecCache.v: key component of the four call sites of
+          parser.get_workflow_spec_by_definition_id, row fields written by services/workflows.py and workbooks.py)
+          vs  sequences of create / update (also within one second, frozen clock) / tick / clear_caches / start /
+          sub-workflow start / cron-trigger creation on the REAL services and engine (harness/engine_driver.py),
+          standalone workflows and workbook workflows, one engine process
 
 Oracle (no model involved), per document:
   O1 the entry point returns a spec, or raises a DSLParsingException-family / 4xx Mistral error; any other
@@ -21,8 +26,16 @@ Oracle (no model involved), per document:
      the same to_dict(); every task written is a task of the spec          -> stored-form:* / task-dropped
   O3 every workbook member cut out by parser.get_workflow_definition / get_action_definition and every
      member cut by services.workflows._cut_wf_definition_from_all loads to the member as written   -> slice:*
+  O5 every start / sub-workflow start / trigger creation of a spec-cache sequence behaves as the definition stored
+     at that moment prescribes (output, task list, wf_ex.spec, accepted input) = as after clear_caches()  -> spec-cache:*
   O4 a sample goes through the real services (create_workflows / create_workbook_v2, sqlite) and back through
      parser.get_workflow_spec_by_definition_id before and after clear_caches().
+
+Seeded regression S1 (spec cache keyed on `checksum` only while services/workbooks.py does not fill it): translator
+tr_speccache fails closed (obligation translate:Gen/SpecCache.v), and oracle O5 reports
+spec-cache:stale-after-update:workbook with the op sequence as replay.  Finding fixed by 8a6d13a7: with the key
+`updated_at` only, two updates within one second were stale (spec-cache:stale-after-same-second-update; regression
+sequences in SC_CORPUS, Coq: C14_cache_refuted_same_second).
 
 Self-test (scratch worktrees of /repo, `VERIF_REPO=/tmp/wt_C14_x ./check C14`; each gives VIOLATION lines, the
 current tree gives none):
@@ -71,10 +84,11 @@ import time
 import traceback
 import zlib
 
+from harness import engine_driver  # noqa: first, it selects the threading backend before anything imports oslo.service
 from harness import core
 from harness.core import coq_str
 
-GEN = ['Schemas']
+GEN = ['Schemas', 'SpecCache']
 
 MANIFEST = {
     'level_text': 'Coq theorems (all inputs, induction over lists/lines, no axioms): for every canonical rendering the '
@@ -82,7 +96,9 @@ MANIFEST = {
                   'a YAML mapping is assumed); the constructor normalisation is idempotent for workflow lists, action lists '
                   'and workbooks, so spec_of(to_dict(spec_of d)) = spec_of d; for the schemas GENERATED from the spec classes, '
                   'schema-valid data satisfies every unchecked key/type assumption of every constructor, and building a '
-                  'workflow list / action list / workbook never ends in an internal error - for EVERY JSON-like document '
+                  'workflow list / action list / workbook never ends in an internal error - for EVERY JSON-like document; '
+                  'the specification cache is coherent with the stored definitions for EVERY sequence of create / update / '
+                  'workbook upsert / tick / eviction / lookup under the key configuration GENERATED from the call sites '
                   '(unconditional since the fixes; the old counterexamples are regression theorems). Models are tied to the '
                   'code by differential runs of the real parser entry points (class-by-class schema verdict traces, outcome '
                   'class, to_dict(), sliced text, key regex).',
@@ -98,6 +114,7 @@ MANIFEST = {
 }
 
 IMPORTS = ['Model.Jv', 'Model.Slice', 'Model.Norm', 'Model.Schema', 'Model.Build', 'Gen.Schemas']
+CACHE_IMPORTS = ['Model.SpecCache', 'Gen.SpecCache']
 DOC_LIMIT_S = 10          # per-document time limit of the oracle (documents are <= ~8 KB)
 MAX_MODEL_TEXT = 4000     # documents larger than this go through the oracle only
 
@@ -1076,8 +1093,9 @@ def bundled_texts():
 class Batch:
     """collects Coq expressions, evaluates once"""
 
-    def __init__(self, name):
+    def __init__(self, name, imports=None):
         self.name = name
+        self.imports = imports or IMPORTS
         self.exprs = []
         self.meta = []
 
@@ -1100,7 +1118,7 @@ class Batch:
             for i in c:
                 flat.append('true' if i is None else self.exprs[i])
                 metas.append(None if i is None else self.meta[i])
-        res = core.coq_eval(self.name, IMPORTS, flat, chunk=size)
+        res = core.coq_eval(self.name, self.imports, flat, chunk=size)
         return [(m, r) for m, r in zip(metas, res) if m is not None]
 
 
@@ -1460,15 +1478,289 @@ def suite_db_roundtrip(ctx, seeds):
     ctx.cov['suites'].setdefault('db_roundtrip', {})['stored_and_reread'] = done
 
 
+# ---------------------------------------------------------------------------
+# specification cache vs stored definitions (real services + real engine, one process)
+
+SC_NAMES = ['s0', 's1', 'wb0.m0', 'wb0.m1']          # model index = position; callers are 10 + index
+
+
+def sc_wf_body(v, ind):
+    """workflow version v: distinguishable by output, task structure and accepted input"""
+    n = 1 + v % 3
+    pad = ' ' * ind
+    lines = ['input:', '  - x: 0', '  - p%d: 0' % v, 'output:', '  ver: %d' % v, 'tasks:']
+    for i in range(n):
+        lines += ['  t%d:' % i, '    action: std.noop']
+        if i + 1 < n:
+            lines.append('    on-success: t%d' % (i + 1))
+    return ''.join(pad + l + '\n' for l in lines)
+
+
+def sc_wf_text(name, v):
+    return "version: '2.0'\n%s:\n%s" % (name, sc_wf_body(v, 2))
+
+
+def sc_wb_text(members):
+    return "version: '2.0'\nname: wb0\nworkflows:\n" + ''.join('  %s:\n%s' % (m, sc_wf_body(v, 4)) for m, v in members)
+
+
+def sc_caller_text(idx):
+    return ("version: '2.0'\ncall%d:\n  output:\n    ver: <%% $.r %%>\n  tasks:\n    c:\n      workflow: %s\n"
+            "      publish:\n        r: <%% task().result.ver %%>\n" % (idx, SC_NAMES[idx]))
+
+
+def sc_gen_sequence(rng, n_ops):
+    """ops over two standalone workflows and one workbook with two members"""
+    ops = []
+    ver = [0]
+    content = {}
+
+    def fresh(name):
+        hist = content.setdefault(name, [])
+        if len(hist) >= 2 and rng.random() < 0.15:
+            v = hist[-2]                       # back to an earlier text (A -> B -> A)
+        else:
+            ver[0] += 1
+            v = ver[0]
+        hist.append(v)
+        return v
+    ops.append(['create_wf', 's0', fresh('s0')])
+    ops.append(['workbook', [['m0', fresh('wb0.m0')], ['m1', fresh('wb0.m1')]]])
+    if rng.random() < 0.5:
+        ops.append(['create_wf', 's1', fresh('s1')])
+    for _ in range(n_ops):
+        k = rng.random()
+        known = [n for n in SC_NAMES if n in content]
+        if k < 0.34:
+            ops.append(['start', rng.choice(known)])
+        elif k < 0.44:
+            ops.append(['substart', rng.choice(known)])
+        elif k < 0.52:
+            ops.append(['cron', rng.choice(known)])
+        elif k < 0.64:
+            n = rng.choice([n for n in known if not n.startswith('wb0.')])
+            ops.append(['update_wf', n, fresh(n)])
+        elif k < 0.80:
+            ms = [['m0', fresh('wb0.m0') if rng.random() < 0.8 else content['wb0.m0'][-1]],
+                  ['m1', fresh('wb0.m1') if rng.random() < 0.5 else content['wb0.m1'][-1]]]
+            ops.append(['workbook', ms])
+        elif k < 0.90:
+            ops.append(['tick', rng.choice([1, 1, 2, 5])])
+        else:
+            ops.append(['evict'])
+    for n in [n for n in SC_NAMES if n in content]:      # every definition: run, evict, run
+        ops += [['start', n], ['evict'], ['start', n]]
+    return ops
+
+
+SC_CORPUS = [
+    # a workbook workflow is run, the workbook is updated (seconds later), the workflow is run again
+    [['workbook', [['m0', 1], ['m1', 2]]], ['start', 'wb0.m0'], ['tick', 5], ['workbook', [['m0', 3], ['m1', 2]]],
+     ['start', 'wb0.m0'], ['evict'], ['start', 'wb0.m0']],
+    # two updates within one second with a start in between (standalone and workbook)
+    [['create_wf', 's0', 1], ['tick', 3], ['update_wf', 's0', 2], ['start', 's0'], ['update_wf', 's0', 3], ['start', 's0'],
+     ['evict'], ['start', 's0']],
+    [['workbook', [['m0', 1], ['m1', 2]]], ['tick', 2], ['workbook', [['m0', 3], ['m1', 2]]], ['substart', 'wb0.m0'],
+     ['workbook', [['m0', 4], ['m1', 2]]], ['substart', 'wb0.m0'], ['cron', 'wb0.m0'], ['start', 'wb0.m0']],
+    # back to an earlier text
+    [['create_wf', 's0', 1], ['start', 's0'], ['tick', 1], ['update_wf', 's0', 2], ['start', 's0'], ['tick', 1],
+     ['update_wf', 's0', 1], ['start', 's0'], ['cron', 's0']],
+]
+
+
+class SpecCacheRunner:
+    """executes an op sequence on the real services / engine (harness.engine_driver) and
+    records for every lookup (observed version, version stored at that moment)"""
+
+    def __init__(self, seed):
+        import random as _random
+        from harness import engine_driver
+        self.ed = engine_driver
+        self.drv = engine_driver.Driver('legacy', seed)
+        self.rng = _random.Random('speccache/%s' % seed)
+
+    def stored(self, name):
+        db_api = boot()['db_api']
+        with db_api.transaction():
+            d = db_api.get_workflow_definition(name)
+            spec = boot()['parser'].get_workflow_spec(copy.deepcopy(d.spec))      # uncached parse of the stored row
+            return {'ver': d.spec.get('output', {}).get('ver'), 'tasks': sorted(t.get_name() for t in spec.get_tasks()),
+                    'updated_at': str(d.updated_at), 'checksum': d.checksum}
+
+    def run_wf(self, name):
+        db_api = boot()['db_api']
+        out, wf_id = self.drv.start_workflow(name)
+        if out != self.ed.Outcome.OK:
+            return {'error': '%s: %s' % (out, str(wf_id)[:200])}
+        self.drv.run_schedule(self.rng)
+        with db_api.transaction():
+            wf_ex = db_api.get_workflow_execution(wf_id)
+            res = {'state': wf_ex.state, 'ver': (wf_ex.output or {}).get('ver'),
+                   'tasks': sorted(t.name for t in wf_ex.task_executions), 'spec_tasks': sorted(wf_ex.spec['tasks'])}
+            subs = [a for t in wf_ex.task_executions for a in t.executions if getattr(a, 'spec', None) and hasattr(a, 'task_executions')]
+            if subs:
+                res['sub_tasks'] = sorted(t.name for t in subs[0].task_executions)
+            return res
+
+    def execute(self, ops):
+        """-> (model ops as Coq text, observations [(op index, kind, name, observed, stored)], log)"""
+        from mistral.services import triggers
+        from mistral.services import workbooks as wb_service
+        from mistral.services import workflows as wf_service
+        B = boot()
+        db_api, P = B['db_api'], B['parser']
+        self.drv.reset(self.drv.seed)
+        exists, callers, wb_exists = set(), set(), False
+        mops, obs = [], []
+        for oi, op in enumerate(ops):
+            clock0 = self.drv.clock
+            kind = op[0]
+            try:
+                if kind == 'create_wf':
+                    self.drv.create_workflows(sc_wf_text(op[1], op[2]))
+                    exists.add(op[1])
+                    mops.append('OCreateWf %d %d' % (SC_NAMES.index(op[1]), op[2]))
+                elif kind == 'update_wf':
+                    wf_service.update_workflows(sc_wf_text(op[1], op[2]))
+                    mops.append('OUpdateWf %d %d' % (SC_NAMES.index(op[1]), op[2]))
+                elif kind == 'workbook':
+                    text = sc_wb_text(op[1])
+                    if wb_exists:
+                        wb_service.update_workbook_v2(text)
+                    else:
+                        self.drv.create_workbook(text)
+                        wb_exists = True
+                    for m, _v in op[1]:
+                        exists.add('wb0.' + m)
+                    mops.append('OWorkbook [%s]' % '; '.join('(%d, %d)' % (SC_NAMES.index('wb0.' + m), v) for m, v in op[1]))
+                elif kind == 'tick':
+                    self.drv.clock += op[1]
+                elif kind == 'evict':
+                    P.clear_caches()
+                    mops.append('OEvictAll')
+                elif kind in ('start', 'substart', 'cron'):
+                    name = op[1]
+                    idx = SC_NAMES.index(name)
+                    want = self.stored(name)
+                    if kind == 'start':
+                        got = self.run_wf(name)
+                        mops.append('OStart %d' % idx)
+                        ok = (got.get('state') == 'SUCCESS' and got.get('ver') == want['ver'] and got.get('tasks') == want['tasks']
+                              and got.get('spec_tasks') == want['tasks'])
+                    elif kind == 'substart':
+                        if idx not in callers:
+                            self.drv.create_workflows(sc_caller_text(idx))
+                            callers.add(idx)
+                            mops.append('OCreateWf %d %d' % (10 + idx, 1000 + idx))
+                        got = self.run_wf('call%d' % idx)
+                        mops += ['OStart %d' % (10 + idx), 'OStart %d' % idx]
+                        obs.append((oi, 'caller', 'call%d' % idx, 1000 + idx, 1000 + idx))
+                        ok = got.get('state') == 'SUCCESS' and got.get('ver') == want['ver'] and got.get('sub_tasks', want['tasks']) == want['tasks']
+                    else:
+                        try:
+                            triggers.create_cron_trigger('trig%d' % oi, name, {'p%d' % want['ver']: 1}, {}, pattern='* * * * *')
+                            got = {'ver': want['ver'], 'accepted': True}
+                            db_api.delete_cron_trigger('trig%d' % oi)
+                        except B['exc'].InputException as e:
+                            got = {'accepted': False, 'error': str(e)[:160]}
+                        mops.append('OStart %d' % idx)
+                        ok = got.get('accepted') is True
+                    obs.append((oi, kind, name, want['ver'] if ok else got.get('ver', -1) if got.get('ver') != want['ver'] else -1,
+                                want['ver'], got, want))
+            except (B['exc'].MistralException, B['exc'].MistralError) as e:
+                obs.append((oi, 'declared-error', str(op), type(e).__name__, None))
+            if self.drv.clock > clock0:
+                mops.append('OTick %d' % (self.drv.clock - clock0))
+        return mops, obs
+
+
+def sc_classify(ops, oi, name):
+    """which family a stale lookup belongs to (specific signatures)"""
+    writes = []          # (op index, clock) of the writes of `name` before oi
+    clock = 0
+    for i, op in enumerate(ops[:oi]):
+        if op[0] == 'tick':
+            clock += op[1]
+        if (op[0] in ('create_wf', 'update_wf') and op[1] == name) or \
+                (op[0] == 'workbook' and name.startswith('wb0.') and any('wb0.' + m == name for m, _ in op[1])):
+            writes.append((i, clock))
+    if len(writes) >= 3 and writes[-1][1] == writes[-2][1]:
+        return 'stale-after-same-second-update'
+    return 'stale-after-update:%s' % ('workbook' if name.startswith('wb0.') else 'standalone')
+
+
+def sc_judge(ctx, ops, obs, kinds=None):
+    """oracle O5 on the observations of one sequence; returns [(observed, stored)] per lookup"""
+    real = []
+    for o in obs:
+        if o[1] == 'declared-error':
+            ctx.disagree('speccache', {'ops': ops, 'op': o[2]}, 'operation succeeds', 'raises %s' % o[3])
+            continue
+        if kinds is not None:
+            kinds[o[1]] += 1
+        real.append((o[3], o[4]))
+        if o[1] != 'caller' and o[3] != o[4]:
+            fam = sc_classify(ops, o[0], o[2])
+            ctx.fail('spec-cache:%s' % fam,
+                     '%s of %r uses a specification that is not the stored definition (stored version %s, observed %s): '
+                     'the cached specification was not invalidated by the update' % (o[1], o[2], o[4], o[5]),
+                     {'kind': 'speccache', 'ops': ops, 'failing_op': o[0], 'observed': o[5], 'stored': o[6]})
+    return real
+
+
+def suite_speccache(ctx):
+    """Model/SpecCache.v (configured by Gen/SpecCache.v) vs the real services, parser cache and engine;
+    oracle: every start / sub-workflow start / trigger creation uses the definition stored at that moment."""
+    runner = SpecCacheRunner(ctx.seed)
+    seqs = [list(s) for s in SC_CORPUS]
+    for _ in range(ctx.n(30, 400)):
+        seqs.append(sc_gen_sequence(ctx.rng, ctx.rng.randint(6, 16)))
+    batch = Batch('c14cache', CACHE_IMPORTS)
+    kinds = collections.Counter()
+    lookups = 0
+    for ops in seqs:
+        mops, obs = runner.execute(ops)
+        real = sc_judge(ctx, ops, obs, kinds)
+        lookups += len(real)
+        ctx.cov['traces_validated_against_impl'] += 1
+        batch.add('exec_ops gen_cfg [%s]' % '; '.join(mops), {'ops': ops, 'real': real})
+    for meta, res in batch.run():
+        pairs = [(int(a), int(b)) for a, b in re.findall(r'\((\d+),\s*(\d+)\)', res)]
+        ctx.count('speccache', json.dumps(meta['ops']), nontrivial=len(pairs) >= 3)
+        ctx.cov['disagreements_checked'] += 1
+        # a stale real lookup reports -1 when the observed version cannot be read (trigger refused): compare coherence there
+        same = len(pairs) == len(meta['real']) and all(
+            (m == r) or (r[0] == -1 and m[0] != m[1] and m[1] == r[1]) for m, r in zip(pairs, meta['real']))
+        if not same:
+            ctx.disagree('speccache', {'ops': meta['ops']}, pairs, meta['real'])
+    ctx.cov['suites'].setdefault('speccache', {}).update(sequences=len(seqs), lookups=lookups, lookup_kinds=dict(kinds))
+    ctx.sample({'suite': 'speccache', 'ops': SC_CORPUS[1]})
+
+
 def run(ctx):
     boot()
     ctx.cov['rule'] = ('documents = corpus + every bundled definition (tests resources, rally jobs, doc examples) through all three entry points '
                        '+ generated workflows/workbooks/actions (direct/reverse, joins, with-items, policies, one-line retry, advanced publishing, '
                        'task-defaults, inline parameters) + structure-aware mutations of those (replace/delete/add key/rename to odd names/wrong types/'
                        'broken expressions) + text-level malformations; distinct = distinct (suite, entry point, text); walk non-trivial = at least 3 schema validations')
-    seeds = suite_documents(ctx)
-    suite_slice(ctx, seeds)
-    suite_db_roundtrip(ctx, seeds)
+    # each suite runs on its own: a model that no longer evaluates (broken obligation) must not
+    # keep the implementation-side oracles of the other suites from running
+    seeds = []
+
+    def guarded(name, fn):
+        try:
+            return fn()
+        except core.CoqEvalError as e:
+            ctx.obligation('correspondence:%s-model-evaluates' % name, False, str(e))
+        except DocTimeout:
+            raise
+        except Exception:
+            ctx.obligation('correspondence:%s-harness-runs' % name, False, traceback.format_exc())
+    got = guarded('documents', lambda: suite_documents(ctx))
+    seeds = got or [gen_definition(ctx.rng) for _ in range(60)]
+    guarded('slice', lambda: suite_slice(ctx, seeds))
+    guarded('db_roundtrip', lambda: suite_db_roundtrip(ctx, seeds))
+    guarded('speccache', lambda: suite_speccache(ctx))
     ctx.assumptions += ['regex verdicts and inline-parameter dictionaries are supplied to the model by the real `re` / BaseSpec._parse_cmd_and_input per case',
                         'jsonschema.check_schema memoised per schema object (the schemas are constants)',
                         'totality for arbitrary text is decided by this run, not by a theorem (partial)']
@@ -1477,6 +1769,13 @@ def run(ctx):
 def search(ctx):
     """Widened oracle-only search (no model)."""
     rng = ctx.rng
+    try:
+        runner = SpecCacheRunner(ctx.seed)
+        for ops in [list(s) for s in SC_CORPUS] + [sc_gen_sequence(rng, rng.randint(6, 16)) for _ in range(60)]:
+            _mops, obs = runner.execute(ops)
+            sc_judge(ctx, ops, obs)
+    except Exception as e:
+        ctx.notes.append('spec-cache search crashed: %r' % (e,))
     stats = new_stats()
     seeds = []
     for _ in range(300):
@@ -1493,6 +1792,18 @@ def search(ctx):
 
 def replay(obj):
     r = obj.get('replay', {})
+    if r.get('kind') == 'speccache':
+        boot()
+        runner = SpecCacheRunner(obj.get('seed', 0))
+        _mops, obs = runner.execute(r['ops'])
+        bad = 0
+        for o in obs:
+            if o[1] in ('caller', 'declared-error'):
+                continue
+            stale = o[3] != o[4]
+            bad += stale
+            print('op %d %-8s %-7s stored version %s -> %s %s' % (o[0], o[1], o[2], o[4], 'STALE' if stale else 'ok', o[5] if stale else ''))
+        return 1 if bad else 0
     if 'text' not in r or 'kind' not in r:
         print(json.dumps(obj, indent=1)[:3000])
         return 1
